@@ -1,4 +1,4 @@
-PENDING.update({k: "check not built yet at this commit (planned, see DESIGN.md section 5)" for k in ["C07","C18"]})
+PENDING.update({k: "check not built yet at this commit (planned, see DESIGN.md section 5)" for k in ["C18"]})
 check("C01", "exploration",
   "Seeded search: every run executes one (generated variant, operation, variables, resolver-outcome plan, release order) of servers generated at check time from /repo's templates, with each resolver/directive call parked and released by the scheduler, and compares data (key order kept) and the error multiset with an independent reference executor. Sampling, not proof; right level because the property is a refinement claim over an unbounded input space.",
   "Probe schemas instead of random schemas; reference executor + plan are the trusted model (parameters P1/P2 documented in DESIGN 3.5); gqlgen-authored messages matched by path only.",
@@ -43,3 +43,7 @@ check("C10", "fault_enumeration",
   "Valid requests on every transport are subjected to one seeded fault each (stream cut/read error at a byte, re-chunking, Content-Length lie, structured JSON corruption; for uploads: size limits, spill files, temp dir failures, part order/dup/drop, map path corruption; for websocket: malformed frames); the recover hook must never fire (user code does not panic), the answer must be a well-formed GraphQL error or success, limits must hold, the private TMPDIR must be empty, well-formed uploads must deliver exact bytes to every mapped path.",
   "Narrower than the statement's 'any bytes': structured faults around valid requests, not exhaustive fuzzing; disk-full / read-only directory not simulated.",
   "deterministic simulation: stream/disk/frame fault injection with a no-recover + well-formedness oracle", "5.10")
+check("C07", "exploration",
+  "Seeded histories of requests over six HTTP transports against one long-lived server (2-entry LRU document cache, APQ, introspection), sequential or overlapped at resolver calls, with optional members present in one request and absent in the next; every response (status, content type, body) must equal the response of a fresh server to that request alone; hash-only APQ requests must answer NotFound or their registered text.",
+  "Fresh-server oracle computed in the same process with the POST pool emptied by GC; GOMAXPROCS=1 makes pool reuse deterministic; websocket cross-operation leakage not covered.",
+  "deterministic simulation: request-history search with a fresh-server differential oracle", "5.7")
